@@ -124,7 +124,9 @@ def run_pool(jobs):
     if n <= 1:
         return [worker(j) for j in jobs]
     ctx = mp.get_context('fork')
-    with ctx.Pool(n) as pool:
+    # one fresh process per function: the solver context of a worker does not grow with the
+    # functions it has already handled (timings stay independent of scheduling)
+    with ctx.Pool(n, maxtasksperchild=1) as pool:
         return pool.map(worker, jobs, chunksize=1)
 
 
